@@ -371,6 +371,10 @@ def object_typed_params(eng, st, obj, args, kw, node):
     yield st, r
 
 
+SCHEMA["TestNode"]["nonnull"] = ["_params_cache", "_picked_by_setup_nodes", "_picked_by_cleanup_nodes",
+                                 "_dropped_setup_nodes", "_dropped_cleanup_nodes"]
+SCHEMA["TestObject"]["nonnull"] = ["_params_cache"]
+SCHEMA["TestWorker"]["nonnull"] = ["net"]
 SCHEMA["TestNode"]["props"] = {"params": warm_params("TestNode")}
 SCHEMA["TestObject"]["props"] = {"params": warm_params("TestObject")}
 SCHEMA["TestWorker"]["props"] = {"params": worker_params}
@@ -406,8 +410,9 @@ def install(eng):
 
 
 def well_formed(eng, st):
-    """Data-structure facts assumed of every initial state."""
-    pass
+    """Data-structure facts assumed of every initial state (and eager creation of class-level state)."""
+    k = Map(STR, Ref("TestSwarm"))
+    st.ghost.setdefault("TestSwarm.run_swarms", V(k, z3.Const("run_swarms0", k.sort())))
 
 
 def axioms(eng):
